@@ -14,6 +14,7 @@ typedef struct { const char *name; const char *sig; call_t call; } fn_t;
 typedef struct { const char *name; call_t call; } op_t;
 extern col_t cols[XDRV_MAXCOL];
 const char *str_of(int i);
+uint32_t strlen_of(int i);
 Crystal_Struct *crystal_of(int i);
 extern Crystal_Struct *user_crystal[XDRV_MAXUSERCRYSTAL]; extern int nuser;
 void blob_add(const char *s, size_t n);
